@@ -63,6 +63,14 @@ type unitCfg struct {
 	NoInit   []string          `json:"noInit"`
 	InlineGo bool              `json:"inlineGo"`
 	DeferGo  bool              `json:"deferGo"` // go statements are queued; see chan.go
+	// Rewrites replace a file of /repo in the overlay by a textually edited
+	// copy of its CURRENT content (From must occur exactly once): instrumentation
+	// that needs no change in /repo and is regenerated on every run.
+	Rewrites []struct {
+		File string `json:"file"`
+		From string `json:"from"`
+		To   string `json:"to"`
+	} `json:"rewrites"`
 	Bounds   string            `json:"bounds"`
 	Assumes  []string          `json:"assumptions"`
 	NoNativeCovers bool        `json:"noNativeCovers"`
@@ -188,6 +196,17 @@ func overlayFor(u *unitCfg, pkgName string, entries []string) (map[string][]byte
 			return nil, "", err
 		}
 		ov[filepath.Join(pkgDir, "zz_verif_shim_cpuset.go")] = []byte(strings.Replace(string(cs), "package PACKAGE", "package "+pkgName, 1))
+	}
+	for _, rw := range u.Rewrites {
+		path := filepath.Join(repoRoot, rw.File)
+		data, err := os.ReadFile(path)
+		if err != nil {
+			return nil, "", err
+		}
+		if n := strings.Count(string(data), rw.From); n != 1 {
+			return nil, "", fmt.Errorf("rewrite of %s: %q occurs %d times (expected exactly once)", rw.File, rw.From, n)
+		}
+		ov[path] = []byte(strings.Replace(string(data), rw.From, rw.To, 1))
 	}
 	inject := func(dir, into string) error {
 		files, err := filepath.Glob(filepath.Join(verifRoot, "harness", dir, "*.go"))
